@@ -180,12 +180,13 @@ def step (_ : Unit) (line : String) : Unit × String :=
       else if op = "strsep" then
         match arg b with
         | some dl =>
-          if a = "null" then "null null -"
-          else match arg a with
-            | some s =>
-              let r := strsep (s ++ [0]) (dl ++ [0])
-              "0 " ++ offStr r.1 ++ " " ++ hexOf r.2
-            | none => bad
+          let sarg : Option (Option Bytes) :=
+            if a = "null" then some none else (arg a).map fun s => some (s ++ [0])
+          match sarg with
+          | some sp =>
+            let r := strsepP sp (dl ++ [0])
+            offStr r.1 ++ " " ++ offStr r.2.1 ++ " " ++ (match r.2.2 with | some b => hexOf b | none => "-")
+          | none => bad
         | none => bad
       else if op = "memmem" ∨ op = "mempbrk" ∨ op = "memspn" ∨ op = "memcspn" then
         match arg a, arg b with
